@@ -4,6 +4,7 @@ import (
 	"context"
 	"encoding/json"
 	"fmt"
+	"math"
 	"os"
 	"path/filepath"
 	"sort"
@@ -82,7 +83,11 @@ func CanonRow(r *gripql.QueryResult) string {
 		return model.Canon(map[string]interface{}{"selections": m})
 	case *gripql.QueryResult_Aggregations:
 		a := x.Aggregations
-		return model.Canon(map[string]interface{}{"aggregations": map[string]interface{}{"name": a.Name, "key": a.Key.AsInterface(), "value": a.Value}})
+		var val interface{} = a.Value
+		if math.IsNaN(a.Value) || math.IsInf(a.Value, 0) {
+			val = fmt.Sprint(a.Value) // JSON has no NaN
+		}
+		return model.Canon(map[string]interface{}{"aggregations": map[string]interface{}{"name": a.Name, "key": a.Key.AsInterface(), "value": val}})
 	}
 	return fmt.Sprintf("<row %T>", r.Result)
 }
